@@ -30,7 +30,7 @@ def strat_io():
 
     @st.composite
     def mat(draw):
-        return dict(T=draw(st.integers(0, 30)), C=draw(st.integers(2, 12)), density=draw(st.sampled_from([0.0, 0.1, 0.4, 1.0])),
+        return dict(T=draw(st.integers(0, 30)) if draw(st.integers(0, 9)) else draw(st.integers(200, 700)), C=draw(st.integers(2, 12)) if draw(st.integers(0, 9)) else draw(st.integers(100, 300)), density=draw(st.sampled_from([0.0, 0.1, 0.4, 1.0])),
                     seed=draw(st.integers(0, 2 ** 31 - 1)),
                     coords=draw(st.one_of(st.just([None, None]), st.tuples(st.integers(0, 5), st.integers(0, 30)).map(list))))
 
@@ -206,7 +206,8 @@ def body_io(ctx, case):
               if dense.shape[0]:
                   lp = tl.get_full_logprobs()
                   s = np.logaddexp.reduce(lp.astype(np.float64), axis=1)
-                  ctx.check(np.all(np.abs(s) < 1e-5), "full_logprobs_not_normalised", lambda: "line %r sums %r; " % (i, s) + desc())
+                  # float32 round-off of a log-sum over C classes grows with C (1e-5 at C = 300)
+                  ctx.check(np.all(np.abs(s) < 2e-5 + 1e-6 * dense.shape[1]), "full_logprobs_not_normalised", lambda: "line %r sums %r; " % (i, s) + desc())
                   dl = tl.get_dense_logits()
                   ctx.check(np.allclose(lp - lp[:, :1], dl - dl[:, :1], atol=1e-4), "full_logprobs_not_shift_of_logits", desc)
         only_one_side = (set(model) ^ set(ids2)) - {miss_id}
